@@ -177,6 +177,7 @@ PATHOLOGICAL = [
     ['1..' + DIGITS(4300)], ['1..' + DIGITS(4301)], ['1..1', '1..' + DIGITS(4301)], ['TAP version ' + DIGITS(4301)],
     ['ok', 'TAP version ' + DIGITS(4301)], ['ok ' + DIGITS(5000, '0')], ['ok ' + DIGITS(4300, '0') + '1'],
     ['# ' + DIGITS(5000)], ['ok n' + DIGITS(5000)], ['TAP version 13', 'ok', '  ---', '  ' + DIGITS(5000), '  ...'],
+    ['1..5', 'ok ' + DIGITS(4300), 'ok'], ['1..5', 'ok ' + DIGITS(4300), 'ok named'], ['Bail out!', 'ok ' + DIGITS(4300), 'ok'],
     ['ok 1 ' + DIGITS(4301)], ['x' * 5000], ['ok ' + 'n' * 5000 + ' # SKIP ' + 'y' * 5000],
 ]
 
@@ -214,7 +215,7 @@ def ok_for_wire(lines):
 
 
 def ident_of(f):
-    if f['kind'] == 'exception' and f.get('exc') == 'ValueError' and f.get('longest_digit_run', 0) >= 4300:
+    if f['kind'] in ('exception', 'exception_in_TestRunTAP') and f.get('exc') == 'ValueError' and f.get('longest_digit_run', 0) >= 4300:
         return 'C18:int-max-str-digits'
     if f['kind'] == 'numbering':
         return 'C18:numbering-undetected'
@@ -263,7 +264,7 @@ def cli_round(ctx, tests):
     os.makedirs(src)
     with open(os.path.join(src, 'emit.py'), 'w') as f:
         f.write('import sys, json\nt = json.load(open(sys.argv[1]))[int(sys.argv[2])]\n'
-                'sys.stdout.buffer.write("".join(t["lines"]).encode("utf-8"))\nsys.stdout.flush()\nsys.exit(t["rc"])\n')
+                'sys.stdout.buffer.write(t.get("out", "".join(t["lines"])).encode("utf-8"))\nsys.stdout.flush()\nsys.exit(t["rc"])\n')
     json.dump(tests, open(os.path.join(src, 'tests.json'), 'w'))
     mb = ["project('c18', meson_version: '>=0.50')", "py = find_program('%s')" % PY]
     for i, t in enumerate(tests):
@@ -318,7 +319,7 @@ def run(ctx):
         items.append({'lines': ls, 'rcs': [0, 1], 'src': 'corpus'})
         items.append({'lines': [l + '\n' for l in ls], 'rcs': [0], 'src': 'corpus'})
     for ls in PATHOLOGICAL:
-        items.append({'lines': ls, 'rcs': [0], 'src': 'pathological'})
+        items.append({'lines': ls, 'rcs': [0, 1] if len(ls) == 3 else [0], 'src': 'pathological'})
     # exhaustive: every sequence of at most L of the 14 line forms
     L = 5 if thorough else 4
     nex = 0
@@ -402,7 +403,15 @@ def run(ctx):
     # -------- model
     cases = [('parse', it['lines']) for it in items] + other
     impl = [x[0] for x in impl_streams] + impl_other
-    model = ctx.run_model(cases) if built else impl
+    if built:
+        # spread neighbouring (similarly expensive) cases over the driver's shards
+        perm = sorted(range(len(cases)), key=lambda i: (i % NPROC, i))
+        out = ctx.run_model([cases[i] for i in perm])
+        model = [None] * len(cases)
+        for k, i in enumerate(perm):
+            model[i] = out[k]
+    else:
+        model = impl
     lap('model')
     oom = 0
     dist = {}
@@ -454,13 +463,18 @@ def run(ctx):
 
     # -------- `meson test` on a generated project: the result reported for a protocol:'tap' test
     cli = []
-    pool = [it for it in items if it['src'] in ('corpus', 'structured', 'mutated') and len(it['lines']) <= 40
-            and all('\x00' not in l and '\r' not in l and len(l) < 500 for l in it['lines'])]
+    pool = [it for it in items if it['src'] in ('corpus', 'structured', 'mutated', 'text') and len(it['lines']) <= 40
+            and all('\x00' not in l and len(l) < 500 for l in it['lines'])]
     rng.shuffle(pool)
-    for it in pool[:(400 if thorough else 60)]:
-        # the harness splits the program's output at LF: give every line exactly one, at its end
-        ls = [l.rstrip('\n').replace('\n', ' ') + '\n' for l in it['lines']]
-        cli.append({'lines': ls, 'rc': rng.choice([0, 0, 0, 1, 3]), 'should_fail': rng.random() < 0.15})
+    import re as _re
+    for it in pool[:(1200 if thorough else 150)]:
+        # what the test program prints: the lines joined, with LF / CRLF endings, the last line
+        # possibly unterminated.  The harness (read_decode) splits at LF and turns CRLF into LF.
+        eol = rng.choice(['\n', '\n', '\n', '\r\n'])
+        body = [l.rstrip('\n').replace('\n', ' ') for l in it['lines']]
+        out = eol.join(body) + (eol if body and rng.random() < 0.8 else '')
+        ls = [x.replace('\r\n', '\n') for x in _re.findall(r'[^\n]*\n|[^\n]+$', out)]
+        cli.append({'lines': ls, 'out': out, 'rc': rng.choice([0, 0, 0, 1, 3, 77, 99]), 'should_fail': rng.random() < 0.25})
     got = []
     for i in range(0, len(cli), 100):
         got += cli_round(ctx, cli[i:i + 100])
